@@ -1,7 +1,46 @@
-(* placeholder until the codec theorems land *)
+(* C18 - externally held server keys are a transparent abstraction.  Statements only; proofs in Theory/External.v. *)
 From Coq Require Import List.
-From OKE Require Import BytesLemmas.
-Theorem C18_placeholder : forall l x y px py r1 r2,
-  Bytes.lenprefix l x = Some px -> Bytes.lenprefix l y = Some py -> px ++ r1 = py ++ r2 -> x = y /\ r1 = r2.
-Proof. exact lenprefix_inj. Qed.
-Print Assumptions C18_placeholder.
+From OKE Require Import Bytes Suite Messages Envelope TripleDH Opaque Api External.
+
+(* an external key whose callbacks answer is, as an interface record, the direct private key *)
+Theorem C18_same_interface :
+  forall E Sc Pk Sk (CS : Suite E Sc Pk Sk), ext_key_ops CS None None = private_key_ops (ke CS).
+Proof. exact @ext_key_transparent. Qed.
+Print Assumptions C18_same_interface.
+
+(* hence every server operation gives the same messages, state, password file and keys, byte for byte *)
+Theorem C18_login_start_transparent :
+  forall E Sc Pk Sk (CS : Suite E Sc Pk Sk) tape setup file msg cred ctx idu ids,
+    run_request CS (QExtSrvLoginStart tape setup file msg cred ctx idu ids None None) =
+    run_request CS (QSrvLoginStart tape setup file msg cred ctx idu ids).
+Proof. exact @ext_login_start_transparent. Qed.
+Print Assumptions C18_login_start_transparent.
+
+(* registration start does not consult the key at all *)
+Theorem C18_registration_start_independent_of_key :
+  forall E Sc Pk Sk (CS : Suite E Sc Pk Sk) setup msg cred fp fd,
+    run_request CS (QExtSrvRegStart setup msg cred fp fd) = run_request CS (QSrvRegStart setup msg cred).
+Proof. exact @ext_reg_start_transparent. Qed.
+Print Assumptions C18_registration_start_independent_of_key.
+
+(* only the public-key and Diffie-Hellman callbacks are used *)
+Theorem C18_only_two_callbacks :
+  forall E Sc Pk Sk (CS : Suite E Sc Pk Sk) (SK SK' : SkOps Pk Sk) tape setup file rq cred ctx ids,
+    (forall s, s_pub SK s = s_pub SK' s) -> (forall s p, s_dh SK s p = s_dh SK' s p) ->
+    server_login_start CS SK tape setup file rq cred ctx ids = server_login_start CS SK' tape setup file rq cred ctx ids.
+Proof. exact @login_start_uses_only_callbacks. Qed.
+Print Assumptions C18_only_two_callbacks.
+
+(* failures are returned as the custom error, with no response and no state *)
+Theorem C18_public_key_failure :
+  forall E Sc Pk Sk (CS : Suite E Sc Pk Sk) tape (setup : ServerSetup Pk Sk Sk) f rq cred ctx ids n fd,
+    server_login_start CS (ext_key_ops CS (Some n) fd) tape setup (Some f) rq cred ctx ids = Err (ELibrary (LCustom n)).
+Proof. exact @ext_login_start_pub_fails. Qed.
+Print Assumptions C18_public_key_failure.
+
+Theorem C18_diffie_hellman_failure :
+  forall E Sc Pk Sk (CS : Suite E Sc Pk Sk) tape (setup : ServerSetup Pk Sk Sk) file rq cred ctx ids n r,
+    server_login_start CS (private_key_ops (ke CS)) tape setup file rq cred ctx ids = Ok r ->
+    server_login_start CS (ext_key_ops CS None (Some n)) tape setup file rq cred ctx ids = Err (ELibrary (LCustom n)).
+Proof. exact @ext_login_start_dh_fails. Qed.
+Print Assumptions C18_diffie_hellman_failure.
